@@ -7,6 +7,7 @@ import json
 import random
 
 from .. import common as C
+from .. import vmv
 from .. import gen, l1
 
 PID = "C15"
@@ -39,6 +40,11 @@ def run(tier, replay=None):
         c["id"] = key(c)
     C.log(f"[{PID}] {len(d1)} trees with leaf operands (all), {len(d2)} of {total2} simulated depth-2 trees, {len(sim)} simulated deeper trees")
     dis, skips, st = l1.run_cases(binary, work, cases)
+    # the compiled code on the value machine MSVMV: per-instruction trace validation of the interpreter and
+    # translation validation of the compiler against MSLang (programs outside the machine's fragment are counted)
+    import random as _random
+    vres = vmv.stage(binary, work / "vmv", cases, 600 if tier == "quick" else 6000, _random.Random(rep.seed))
+    vcov = vmv.report(rep, vres, "expression tree")
     byid = {c["id"]: c for c in cases}
     for c in cases:
         if c["rejected"]:
@@ -49,10 +55,10 @@ def run(tier, replay=None):
         rep.violation(f"{d['path']} toks=[{d['id']}]",
                       f"{d['path']}: tree [{d['id']}] semantics prescribes log {d['exp_out']} ({d['exp_status']}); real binary {d['obs_out']} exit={d['obs_exit']} {d['obs_fclass']}",
                       dict(case=c["id"], verdict=d, files={"main.ms": c["src"]}, stderr=[o["err"] for o in c["obs"]]))
-    rep.coverage = dict(
+    rep.coverage = dict(**vcov, traces_validated_against_impl=vres["recorded"],
         programs=len(cases), disagreements_checked=len(dis), out_of_model=len(skips),
         rejected_by_compiler=sum(1 for c in cases if c["rejected"]),
-        states=st["states"] + g1.distinct + g2.distinct, transitions=st["transitions"] + g1.generated + g2.generated,
+        states=st["states"] + vres["states"] + g1.distinct + g2.distinct, transitions=st["transitions"] + vres["transitions"] + g1.generated + g2.generated,
         evaluations=len(cases), distinct_nontrivial=sum(1 for c in cases if len(c["toks"]) >= 4),
         rule="GenOrder.tla: typed prefix-token derivations; all trees whose operands are leaves, seeded -simulate trees of operand depth 2 and up to 4; 23 productions incl. variable reads, a mutating call and boolean literals over int/bool incl. &&, ||, `or`, calls with 2-4 arguments, list literals, indexing, recursion inside operands; non-trivial = at least 4 tokens",
         samples=[dict(tokens=c["id"], src=c["src"].split("print \"S\"")[1][:300], log=c["obs"][0]["out"]) for c in cases[:: max(1, len(cases) // 3)][:3]],
